@@ -7,7 +7,7 @@ from vf.ob import obligation, shard
 from tartiflette import Resolver
 
 META = {
-    "bounds": "request sequences of length <= 3 over a pool of 15 documents (valid incl. fragments on interface / implementer, variables nested in object/list literals and multi-operation, invalid, syntactically broken, "
+    "bounds": "request sequences of length <= 3 over a pool of 17 documents (valid incl. fragments on interface / implementer, variables nested in object/list literals and multi-operation, invalid, syntactically broken, "
               "runtime-failing) x str/bytes spelling x per-request int variable (unbounded) x operation name; 4 cache configurations: default lru_cache(512) (real, CrossHair's cache "
               "bypass removed), lru_cache(1), custom dict decorator, cache disabled",
     "outside": "sequences longer than 3; cache decorators other than these four",
@@ -85,6 +85,8 @@ POOL = [
     b"{ a \xff }",                                                        # bytes that are not valid UTF-8 (always sent as bytes): a syntax error, cached or not
     "{ ...UF } fragment UF on Query { a ...EX } fragment EX on Query { nn ...UF }",            # invalid: fragment cycle
     "{ ...UF } fragment UF on Query { ...EX a } fragment EX on Query { nn }",                 # valid, re-uses the fragment names of the cyclic document
+    "query Q($v: Int!) { echo(v: $v) }",                                                      # a REQUIRED variable: null / out of range fails before execution, a good value succeeds (same text)
+    "query A($v: Int!) { echo(v: $v) } query B { a }",                                        # operation A needs $v, operation B does not
 ]
 I32 = 2 ** 31
 
@@ -95,6 +97,12 @@ def oracle(idx, v, opsel):
         return None, True
     if idx == 14:
         return {"nn": 1, "a": 7}, False
+    if idx == 15:
+        return (None, True) if (v is None or not (-I32 <= v < I32)) else ({"echo": v}, False)
+    if idx == 16:
+        if opsel:
+            return {"a": 7}, False
+        return (None, True) if (v is None or not (-I32 <= v < I32)) else ({"echo": v}, False)
     provided = "$v" in POOL[idx] and not (idx in (3, 8) and v is None)
     if provided and v is not None and not (-I32 <= v < I32):
         return None, True                 # variable coercion refuses the request
@@ -154,7 +162,7 @@ def send(eng, idx, v, asbytes, opsel):
     if asbytes and isinstance(q, str):
         q = q.encode("utf-8")
     op = None
-    if idx == 3:
+    if idx in (3, 16):
         op = "B" if opsel else "A"
     ctx = {"fail": idx == 7 and opsel}
     variables = {"v": v} if isinstance(POOL[idx], str) and "$v" in POOL[idx] and not (idx in (3, 8) and v is None) else {}      # None = variable not provided where a default exists
@@ -163,14 +171,15 @@ def send(eng, idx, v, asbytes, opsel):
 
 SH16 = [{"cfg": c, "first": f, "second": g, "b1": b, "o": o} for c in ENGS for f in range(len(POOL)) for g in range(len(POOL)) for b in (1, 0) for o in (1, 0) if c == "default" or (b, o) == (1, 1)]
 Q16 = [i for i, s in enumerate(SH16) if ((s["b1"], s["o"]) == (1, 1) or (s["cfg"], s["first"], s["second"], s["b1"], s["o"]) == ("default", 3, 3, 0, 0)) and (s["cfg"], s["first"], s["second"]) in (("default", 0, 0), ("default", 1, 1), ("default", 2, 2), ("default", 3, 3), ("default", 6, 0), ("default", 4, 1),
-                                                                               ("lru1", 1, 0), ("lru1", 2, 4), ("default", 9, 10), ("default", 11, 10), ("default", 12, 12), ("dict", 12, 0), ("lru1", 0, 12), ("default", 13, 14), ("none", 13, 14), ("lru1", 14, 13), ("dict", 13, 13), ("none", 9, 10), ("lru1", 11, 9), ("dict", 10, 9), ("dict", 2, 2), ("dict", 8, 8), ("none", 1, 1), ("default", 7, 7))]
+                                                                               ("lru1", 1, 0), ("lru1", 2, 4), ("default", 9, 10), ("default", 11, 10), ("default", 12, 12), ("dict", 12, 0), ("lru1", 0, 12), ("default", 13, 14), ("none", 13, 14), ("default", 15, 15), ("dict", 15, 15), ("lru1", 16, 16), ("default", 16, 16), ("lru1", 14, 13), ("dict", 13, 13), ("none", 9, 10), ("lru1", 11, 9), ("dict", 10, 9), ("dict", 2, 2), ("dict", 8, 8), ("none", 1, 1), ("default", 7, 7))]
 
 
 @obligation(tier="quick", timeout=300, thorough_timeout=900, shards=SH16, quick_shards=Q16,
-            samples=[{"i2": 1, "v0": 1, "v1": 2, "b1": True, "o": True}, {"i2": 0, "v0": 2**31, "v1": None, "b1": False, "o": False}],
+            samples=[{"i2": 1, "v0": 1, "v1": 2, "b1": True, "o": True}, {"i2": 0, "v0": 2**31, "v1": None, "b1": False, "o": False}, {"i2": 15, "v0": 2**31, "v1": 5, "b1": True, "o": True},
+                     {"i2": 16, "v0": -2**31 - 1, "v1": 0, "b1": True, "o": False}],
             symbolic=["v0: int, v1: Optional[int] — the variables of the first two requests (unbounded); the third request reuses v0"],
             selectors=["i2: pool index of the 3rd request", "shard: cache configuration, first and second request, str/bytes spelling of the 2nd request (the 3rd uses the other one), operation name / failure selector"],
-            bounds="sequences of 3 requests (every prefix is checked position by position) over 15 documents",
+            bounds="sequences of 3 requests (every prefix is checked position by position) over 17 documents",
             note="every response of the sequence == the uncached engine's response to the same request; repeating a request gives the same response; failed/invalid requests leave no trace")
 def c16_history(i2: int, v0: int, v1: Optional[int], b1: bool, o: bool) -> bool:
     """
